@@ -2,7 +2,7 @@
 box-constrained minimum of a convex quadratic.
 
 Models: Minim.v (Levenberg / Levenberg-Marquardt, unbounded and bounded), MinimCG.v (line search; conjugate gradient,
-unbounded and bounded), MinimLBFGS.v (bounded L-BFGS) - hand models, tie H - with the theorems of Properties_C18.v /
+unbounded and bounded), MinimLBFGS.v (L-BFGS, unbounded and bounded) - hand models, tie H - with the theorems of Properties_C18.v /
 Properties_C19.v; Gen_Minim.v (tie G) for the call-back arguments of all the bounded drivers and of the line search.  The implementation is run in a LAPACK build on data-defined problems with an instrumented cost
 function (every state passed to a call-back is checked against the box exactly; every call runs in a child process under
 an alarm).  For every modelled driver the sequence of call-back states, status, counts, x, reported cost and norm are
@@ -340,7 +340,7 @@ def check(run, replay=None, cid="C18"):
                        "SUCCESS => gradient norm over components not pinned by sign <= threshold, iterations <= maximum, return within 10 s, statuses for invalid bounds / NaN cost."
                        if cid == "C18" else
                        "Checked per strictly convex quadratic with max_iterations=200: status SUCCESS, returned x within 2*threshold of the exact KKT point (active-set enumeration over the rationals), iterations <= 20n+50."))
-    run.assumptions += ["Minim.v, MinimCG.v, MinimLBFGS.v are hand models (tie = comparison of call-back sequences and results on every run); the unbounded L-BFGS driver is not modelled",
+    run.assumptions += ["Minim.v, MinimCG.v, MinimLBFGS.v are hand models (tie = comparison of call-back sequences and results on every run)",
                         "the feasibility theorems for conjugate gradient and L-BFGS assume that a line search entered without bounds (no component of the direction points to a finite bound) cannot leave the box",
                         "LAPACK's solve, the norm, the finiteness test and the user's functions are Section variables of the model; in the comparison they are an OCaml elimination, sqrt of a sum of squares, Float.is_finite and the harness's problems re-implemented in OCaml",
                         "the comparison tolerates 1e-7 relative differences in states (different solver / summation rounding) and retries under 40 rounding perturbations (every multiplication and division of the model, solve, the direction norm, by at most one ulp) before reporting a difference; decisions with a relative margin below 1e-9 (Levenberg) / 1e-6 (CG, L-BFGS) are near-ties",
